@@ -55,7 +55,7 @@ class Raw:
 GEN_DEFAULTS = {
     'N': 4, 'MaxKids': 4, 'MinHi': 0, 'AllowStar': False, 'Axes': set(), 'Types': set(),
     'FCards': set(), 'AttrNames': [], 'AttrVals': set(), 'MaxCtc': 0, 'CtcDepth': 0,
-    'CtcBinOps': set(), 'CtcArith': False, 'CtcMinFeatures': 1, 'Fmt': '', 'MaxLevel': 40,
+    'CtcBinOps': set(), 'CtcArith': False, 'CtcMinFeatures': 1, 'Fmt': '', 'MaxLevel': 40, 'Walks': 0, 'Seed': 0,
 }
 GEN_INVARIANTS = ['InvWellFormed', 'L1_KindPartition', 'L2_Preorder']
 SEM_INVARIANTS = ['L3_Count', 'L4_Core', 'L5_Atomic']
@@ -115,8 +115,8 @@ def run_generator(workdir, consts, module='FM', defaults=True, invariants=(), em
     cmd = _java(heap) + ['-workers', str(workers), '-metadir', os.path.join(workdir, 'states'),
                          '-noGenerateSpecTE', '-config', 'MC.cfg']
     if simulate:
-        cmd += ['-simulate', 'num=%d' % simulate['num'], '-depth', str(simulate['depth']),
-                '-seed', str(seed)]
+        cmd += ['-simulate', 'num=%d' % simulate['num'], '-depth', str(simulate['depth'])]
+    cmd += ['-seed', str(seed)]
     cmd += ['MC.tla']
     t0 = time.time()
     pr = subprocess.run(cmd, cwd=workdir, capture_output=True, text=True, timeout=timeout)
